@@ -12,6 +12,7 @@ import (
 	"strings"
 	"time"
 
+	"github.com/taskctl/taskctl/pkg/scheduler"
 	"github.com/taskctl/taskctl/pkg/task"
 	"github.com/taskctl/taskctl/pkg/variables"
 	"mvdan.cc/sh/v3/expand"
@@ -171,4 +172,46 @@ func VerifC18Env() {
 	if inProcess && inPipeline && inTask {
 		verifReach("all-three-levels")
 	}
+}
+
+type vCaptureRunner struct{ got *task.Task }
+
+func (m *vCaptureRunner) SetOnTaskChange(f func(t *task.Task)) {}
+func (m *vCaptureRunner) Run(t *task.Task) error               { m.got = t; return nil }
+func (m *vCaptureRunner) Cancel()                              {}
+func (m *vCaptureRunner) Finish()                              {}
+
+// VerifC18Stage: the hand-over from the scheduler to the task runner (Scheduler.runStage): the
+// variables the task is run with are the job's variables - a task-level environment entry of the same
+// name (symbolic), or one named like the reserved job id variable, never replaces them.
+func VerifC18Stage() {
+	name := verifString("variable.name")
+	verifAssume(name != JobIDVariableName)
+	jobValue, envValue, forged := verifString("variable.job-value"), verifString("variable.task-env-value"), verifString("task-env.__jobID")
+	taskEnv := map[string]string{}
+	if verifChoose("task-env-defines-the-same-name", 2) == 1 {
+		taskEnv[name] = envValue
+		verifReach("name-collision")
+	}
+	if verifChoose("task-env-defines-the-job-id-name", 2) == 1 {
+		taskEnv[JobIDVariableName] = forged
+		verifReach("job-id-collision")
+	}
+	t := task.FromCommands("echo")
+	t.Name = "a"
+	t.Env = variables.FromMap(taskEnv)
+	stage := &scheduler.Stage{Name: "a", Task: t,
+		Variables: variables.FromMap(map[string]string{name: jobValue, JobIDVariableName: "job-1"})}
+	cr := &vCaptureRunner{}
+	s := NewScheduler(cr)
+	err := s.runStage(stage)
+	verifAssert(err == nil && cr.got != nil, "C18.stage-reaches-the-runner")
+	if cr.got == nil {
+		return
+	}
+	got, _ := cr.got.Variables.Get(name).(string)
+	verifAssert(cr.got.Variables.Has(name) && got == jobValue, "C18.job-variables-reach-the-command-unchanged")
+	id, _ := cr.got.Variables.Get(JobIDVariableName).(string)
+	verifAssert(id == "job-1", "C18.job-identity-reaches-the-command")
+	verifReach("end")
 }
